@@ -125,21 +125,38 @@ Proof.
 Qed.
 
 (** a plain definition head [<n>] is not read as a specialisation *)
+Lemma all_chars_both : forall n,
+    all_chars (fun c => negb (Ascii.eqb c GT)) n = true -> all_chars (fun c => negb (Ascii.eqb c AT)) n = true ->
+    all_chars (fun c => negb (Ascii.eqb c GT) && negb (Ascii.eqb c AT)) n = true.
+Proof.
+  induction n; cbn [all_chars]; intros A B; auto.
+  apply andb_true_iff in A as [A1 A2]. apply andb_true_iff in B as [B1 B2]. rewrite A1, B1. cbn. auto.
+Qed.
+
 Lemma nonterm_specialization_plain : forall n r p,
-    wf_nt n = true -> all_chars (fun c => negb (Ascii.eqb c AT)) n = true ->
+    wf_nt n = true -> negb (spec_like n) = true ->
     nonterm_specialization (mkin (String LT (append n (String GT r))) p) = Err tt.
 Proof.
-  intros n r p W Wa. unfold wf_nt in W. apply andb_true_iff in W as [W1 W2].
+  intros n r p W Wa. unfold wf_nt in W. apply andb_true_iff in W as [W1 W2]. apply negb_true_iff in Wa.
+  unfold spec_like in Wa.
+  destruct (span_while (fun c => negb (Ascii.eqb c AT)) n) as [a b] eqn:E.
+  pose proof (span_while_app _ _ _ _ E) as En. pose proof (span_while_all _ _ _ _ E) as Ea.
+  pose proof (span_while_stop _ _ _ _ E) as Es. subst n.
+  rewrite all_chars_app in W2. apply andb_true_iff in W2 as [Wa2 Wb2].
   unfold nonterm_specialization, char_p, take_while1, take_while. cbn [rest at_].
   rewrite (proj2 (eqb_eq_a LT LT) eq_refl). cbn [obind rest at_].
-  assert (Hall : all_chars (fun c => negb (Ascii.eqb c GT) && negb (Ascii.eqb c AT)) n = true).
-  { clear W1. induction n; cbn [all_chars] in *; auto.
-    apply andb_true_iff in W2 as [A1 A2]. apply andb_true_iff in Wa as [B1 B2].
-    rewrite A1, B1. cbn. auto. }
-  rewrite (span_while_exact _ n (String GT r) Hall)
-    by (cbn [hd_in]; rewrite (proj2 (eqb_eq_a GT GT) eq_refl); reflexivity).
-  destruct n as [|c n]; [discriminate|]. cbn [obind rest at_].
-  replace (Ascii.eqb GT AT) with false by (vm_compute; reflexivity). reflexivity.
+  rewrite app_assoc_s.
+  rewrite (span_while_exact _ a (append b (String GT r)) (all_chars_both a Wa2 Ea)).
+  2:{ destruct b as [|x b']; cbn [append hd_in].
+      - rewrite (proj2 (eqb_eq_a GT GT) eq_refl). reflexivity.
+      - cbn [hd_in] in Es. apply negb_true_iff in Es. apply negb_false_iff in Es. rewrite Es.
+        rewrite andb_false_r. reflexivity. }
+  destruct a as [|c a]; [reflexivity|]. cbn [obind rest at_ is_empty negb andb] in *.
+  destruct b as [|x sh]; cbn [append].
+  - replace (Ascii.eqb GT AT) with false by (vm_compute; reflexivity). reflexivity.
+  - cbn [hd_in] in Es. apply negb_true_iff in Es. apply negb_false_iff in Es. rewrite Es. cbn [obind rest at_].
+    destruct sh; [|discriminate]. cbn [append span_while].
+    rewrite (proj2 (eqb_eq_a GT GT) eq_refl). cbn [negb]. reflexivity.
 Qed.
 
 Theorem nonterm_specialization_printed : forall n sh r p,
